@@ -97,7 +97,8 @@ def _body(draw, decorated: bool):
         # CPython recognises the marker by its type, whatever the attribute is called
         items.insert(draw(st.integers(0, len(items))), {"t": "kw", "n": draw(_kw_names)})
     if draw(_i09 if decorated else _i04) == 0:
-        items.insert(draw(st.integers(0, len(items))), {"t": "init", "sig": draw(_sigs)})
+        # assign: `__init__ = _init_C<i>` (a function defined at module level, bound by assignment) instead of `def __init__`
+        items.insert(draw(st.integers(0, len(items))), {"t": "init", "sig": draw(_sigs), "assign": int(draw(_i03) == 0)})
     return items
 
 
@@ -390,6 +391,9 @@ def render_class(case: dict, i: int) -> list[str]:
     cv_name = CLASSVAR[case["cv"]][1]
     cls = case["classes"][i]
     lines = []
+    for item in cls["body"]:
+        if item["t"] == "init" and item.get("assign"):
+            lines.append(f"def _init_C{i}({INIT_SIGS[item['sig']]}): ...")
     d = cls["deco"]
     if d is not None:
         if not d["call"]:
@@ -426,7 +430,10 @@ def render_class(case: dict, i: int) -> list[str]:
         elif t == "meth":
             lines.append(f"    def {item['n']}(self): ...")
         elif t == "init":
-            lines.append(f"    def __init__({INIT_SIGS[item['sig']]}): ...")
+            if item.get("assign"):
+                lines.append(f"    __init__ = _init_C{i}")
+            else:
+                lines.append(f"    def __init__({INIT_SIGS[item['sig']]}): ...")
     lines.append("")
     return lines
 
@@ -588,6 +595,8 @@ def stats(case: dict) -> tuple[bool, list[str]]:
         labels.add(f"dataclass-depth={depth[i]}")
         if own_init:
             labels.add("own-init-in-dataclass")
+            if any(it["t"] == "init" and it.get("assign") for it in cls["body"]):
+                labels.add("own-init-bound-by-assignment-in-dataclass")
         if d["init"] == 0:
             labels.add("deco-init=False")
         if d["kw_only"] is not None:
